@@ -176,7 +176,7 @@ def run_case(case):
         for ci, cur in ((1, dts[0]), (2, dts[1])):
             mode = r.choice(['same-as-derived', 'other', 'none'])
             if mode == 'same-as-derived':
-                later.append({'op': 'setattr', 'target': ci, 'field': 'cast_dtype', 'value': {'$dtype': cur, 'as': r.choice(['type', 'dtype'])}})
+                later.append({'op': 'setattr', 'target': ci, 'field': 'cast_dtype', 'value': {'$dtype': cur, 'as': gen.cast_form(r)}})
                 bump('c03-cast-declared-equal-to-derived')
             elif mode == 'other':
                 later.append({'op': 'setattr', 'target': ci, 'field': 'cast_dtype', 'value': {'$dtype': r.choice([d for d in ('float64', 'float32', 'int32') if d != cur]), 'as': 'type'}})
